@@ -29,20 +29,20 @@ Rows(text, W) == Lay(text, W, 1, <<>>, <<>>)
 (* The text can be presented at width W at all: no grapheme is wider.       *)
 Presentable(text, W) == \A i \in 1..Len(text) : text[i].nl \/ text[i].w <= W
 
-(* obs presents the text: it is the canonical rows, except that an extra    *)
-(* EMPTY row is tolerated (it loses nothing) directly after a row that      *)
-(* fills the width exactly, and at the very end when the text ends with a   *)
-(* terminator.                                                              *)
-RECURSIVE Match(_, _, _, _, _)
-Match(obs, can, W, i, j) ==      \* obs[i..] against can[j..]
-  IF i > Len(obs) THEN j > Len(can)
-  ELSE \/ (j <= Len(can) /\ obs[i] = can[j] /\ Match(obs, can, W, i + 1, j + 1))
-       \/ (obs[i] = <<>> /\ i > 1 /\ RowWidth(obs[i - 1]) = W /\ Match(obs, can, W, i + 1, j))
+(* obs presents the text: it is the canonical rows - a line whose width is  *)
+(* k times the window width occupies k rows, with or without its terminator *)
+(* (the terminator ends the line it stands after; it is not a line of its   *)
+(* own), so an empty row appears exactly where the text has an empty line.  *)
+(* A row that is not in the text is not a presentation of the text: between *)
+(* two lines it shows a blank line the text does not have, and it is counted *)
+(* as content by the scroll bound.  One reading is left to the pager: a     *)
+(* terminator at the very end of the text may be taken to open a last,      *)
+(* empty line (text viewers differ on this); that one empty row at the end  *)
+(* is accepted.                                                             *)
 EndsTerminated(text) == Len(text) > 0 /\ text[Len(text)].nl
 Presents(obs, text, W) ==
-  \/ Match(obs, Rows(text, W), W, 1, 1)
-  \/ (EndsTerminated(text) /\ Len(obs) > 0 /\ obs[Len(obs)] = <<>>
-      /\ Match(SubSeq(obs, 1, Len(obs) - 1), Rows(text, W), W, 1, 1))
+  \/ obs = Rows(text, W)
+  \/ (EndsTerminated(text) /\ obs = Append(Rows(text, W), <<>>))
 
 (* No character is lost: the rows, read in order, are the text without its  *)
 (* terminators (a consequence of Presents, stated separately for the        *)
@@ -60,8 +60,19 @@ FitsWidth(obs, W) == \A i \in 1..Len(obs) : RowWidth(obs[i]) <= W
 MaxOffset(total, h) == IF total > h THEN total - h ELSE 0
 Clamped(off, total, h) == off >= 0 /\ off <= MaxOffset(total, h)
 
+(* obs is the canonical rows with empty rows put in between (for the        *)
+(* rejection signature: rows shown that no line of the text occupies; obs   *)
+(* is what a screen shows, so empty rows at its end cannot be told from no  *)
+(* rows).                                                                   *)
+RECURSIVE Padded(_, _, _, _)
+Padded(obs, can, i, j) ==
+  IF i > Len(obs) THEN \A jj \in j..Len(can) : can[jj] = <<>>
+  ELSE \/ (j <= Len(can) /\ obs[i] = can[j] /\ Padded(obs, can, i + 1, j + 1))
+       \/ (obs[i] = <<>> /\ Padded(obs, can, i + 1, j))
+
 PresentsWhy(obs, text, W) ==
   IF ~NothingLost(obs, text) THEN "characters-lost"
   ELSE IF ~FitsWidth(obs, W) THEN "row-wider-than-window"
+  ELSE IF Padded(obs, Rows(text, W), 1, 1) THEN "empty-row-not-in-text"
   ELSE "line-structure"
 =============================================================================
